@@ -25,6 +25,15 @@ func loadAll(repo, verif string) (*Prog, error) {
 			}
 		}
 	}
+	dc, _ := filepath.Glob(filepath.Join(verif, "depcontracts", "*.spec"))
+	sort.Strings(dc)
+	for _, f := range dc {
+		// contracts on dependency functions (checked, not trusted); package key from the file name
+		pk := "dep/" + strings.TrimSuffix(filepath.Base(f), ".spec")
+		if err := P.specs.loadSpecFile(f, pk, false); err != nil {
+			return nil, err
+		}
+	}
 	tr, _ := filepath.Glob(filepath.Join(verif, "trusted", "*.spec"))
 	sort.Strings(tr)
 	for _, f := range tr {
